@@ -75,21 +75,28 @@ def h_roundtrip(env):
                 raise
             same = False
         env.check("from_dict-%s-same-bytes" % form, same)
-    if not env.sym:
-        import json
+    # the text path: natively the real json; symbolically its model (vf/symjson.py), which decides serialisability as json does and what
+    # the text parses back to
+    try:
+        text = m.to_json(casing=_casing(betterproto, casing))
+        if not env.sym:
+            import json
 
-        try:
-            text = m.to_json(casing=_casing(betterproto, casing))
             json.loads(text)
-        except Exception as e:
-            env.check("witness:to_json-produces-json", False, repr(e))
-            return
-        try:
-            back = mod.M().from_json(text)
-            ok = back == m and bytes(back) == bytes(data)
-        except Exception as e:
-            ok = False
-        env.check("witness:from_json(to_json)==original", ok, text[:200])
+    except Exception as e:
+        if type(e).__name__ in ("Unsupported", "EngineLimit"):
+            raise
+        env.check("to_json-produces-json", False, repr(e))
+        return
+    env.check("to_json-produces-json", True)
+    try:
+        back = mod.M().from_json(text)
+        ok = sym.sym_and(back == m, bytes(back) == data)
+    except Exception as e:
+        if type(e).__name__ in ("Unsupported", "EngineLimit"):
+            raise
+        ok = False
+    env.check("from_json(to_json)==original", ok, "" if env.sym else text[:200])
 
 
 def _offender(d, path=""):
